@@ -9,7 +9,7 @@ from . import manifests as M
 
 PID = 'C07'
 PINS = C.load_pins('C07')
-PROOF_FILES = ['Proofs/BumpProofs.v', 'Proofs/CstProofs.v', 'Props/C07.v']
+PROOF_FILES = ['Proofs/BumpProofs.v', 'Proofs/CstProofs.v', 'Proofs/GoOrderProofs.v', 'Proofs/ParseShow.v', 'Proofs/OfferedText.v', 'Props/C07.v']
 IMPORTS = 'From Coq Require Import ZArith.\nFrom VL Require Import Lib.Bytes Lib.Cst Model.CodeAction Run.ParseRun Run.ActionRun.\n'
 CLASS_FINDING = {
     'token': 'C07-edit-range-assumes-token-is-version',
